@@ -259,3 +259,13 @@ package schema
 //@   trusted "registers an anonymous type under a name derived from its address: arbitrary effect on the type table (nothing else assumed)"
 //@   maypanic
 //@   modifies *
+
+// C17: "an error position lies inside the source it refers to": the root file
+// registered for a type must be the file the type's own lexemes refer to -
+// errors found while checking the type are re-based onto (rootFile, begin)
+//@ func (*Schema).AddNamedType(name, typ, rootFile, begin)
+//@   props C17 C07 C09
+//@   requires s != nil && s.types != nil && typ != nil
+//@   requires typ.rootNode != nil ==> basisLex(typ.rootNode).file == rootFile
+//@   maypanic
+//@   modifies s.types[*]
